@@ -52,7 +52,7 @@ type DagCase struct {
 	BigOut   bool             `json:"bigout,omitempty"` // odd tasks write more than 64 KiB per attempt
 	Names    bool             `json:"names,omitempty"`  // task IDs are words with separators, spaces, case twins instead of numbers
 	WithTM   bool             `json:"withtm,omitempty"` // a TaskMap is used (tmadd ops, "m" references) and handed to Validate
-	WithAPI  bool             `json:"withapi,omitempty"` // some *Task arguments are look-ups (g.Task / tm.Get)
+	WithAPI  bool             `json:"withapi,omitempty"` // tasks come from a TaskMap (made anew for every graph built from the history)
 }
 
 // IDs handed to the library: the decimal number, or (Names) a word chosen so that IDs contain each other,
@@ -1673,12 +1673,19 @@ func genDagCase(r *rand.Rand, id int, prop string) *DagCase {
 			}
 			c.Ops = append(adds, c.Ops...)
 		}
+		seen := map[int]bool{}
 		for i := range c.Ops {
 			if c.Ops[i].Op == "tmadd" || c.Ops[i].Op == "sort" {
 				continue
 			}
-			if src == "g" && c.Ops[i].Op == "add" {
-				continue // AddTask(g.Task(id)) adds nothing new; the tasks themselves are added
+			known := seen[c.Ops[i].T.ID]
+			seen[c.Ops[i].T.ID] = true
+			for _, d := range c.Ops[i].Deps {
+				seen[d.ID] = true
+			}
+			if src == "g" && c.Ops[i].Op == "add" && (!known || r.Intn(2) == 0) {
+				// AddTask(g.Task(id)) only makes sense as a re-add: the first AddTask of an ID gives the task itself
+				continue
 			}
 			conv(&c.Ops[i].T, src, p)
 			for j := range c.Ops[i].Deps {
@@ -1690,8 +1697,7 @@ func genDagCase(r *rand.Rand, id int, prop string) *DagCase {
 			op := DagOp{Op: "lookup", T: TRef{ID: 1 + r.Intn(n+1), Src: src}}
 			c.Ops = append(c.Ops[:pos], append([]DagOp{op}, c.Ops[pos:]...)...)
 		}
-		c.Shared = false
-		c.WithAPI = true
+		c.WithAPI = src == "m"
 	}
 	readd := func() {
 		// a task redefined with a new *Task object (same ID) somewhere in the history: the graphs
